@@ -466,6 +466,31 @@ def simpleOp (l : Line) : M Unit := do
         match s.m.find? (fun p => p.2.exp + 1073741824 < s.now) with
         | some p => fail s!"C13: after CleanUp at {s.now} key {p.1} (deadline {p.2.exp}, {s.now - p.2.exp} ns ago) is still physically present and its Expiration event has not been delivered"
         | none => pure ()
+  | ["iteradv", what, d] =>
+      -- an iteration during which the clock jumps by d after the first element: the first element is live at the start,
+      -- every later one is live at the later time (C03: nothing is yielded after its expiration time), nothing is left out
+      let d ← tokInt d
+      let s := c.s
+      let s' := advance s d
+      let tokOf (p : Nat × Entry) : String := match what with
+        | "all" => s!"{p.1}={p.2.val}" | "keys" => toString p.1 | _ => toString p.2.val
+      let live0 := (liveEntries s).map tokOf
+      let live1 := (liveEntries s').map tokOf
+      let first := ((l.res.headD "").drop 6).toString
+      let restTok := (((l.res.getD 1 "").drop 5).toString.splitOn ",").filter (· != "")
+      if first == "-" then
+        (if !live0.isEmpty then fail s!"iteration ({what}) yielded nothing, spec holds {live0}" else pure ())
+      else if !live0.contains first then fail s!"C03: iteration ({what}) yielded {first}, which is not a live entry at the time of the yield (live: {live0})"
+      else
+        match restTok.find? (fun x => !live1.contains x) with
+        | some x => fail s!"C03: iteration ({what}) yielded {x} after its expiration time (the clock had advanced by {d}; live then: {live1})"
+        | none =>
+          match (live1.filter (· != first)).find? (fun x => !restTok.contains x) with
+          | some x => fail s!"iteration ({what}) left out the live entry {x}"
+          | none => if restTok.length != (restTok.eraseDups).length then fail s!"iteration ({what}) yielded an entry twice: {restTok}" else pure ()
+      -- the jump of the clock may be followed by maintenance (expiration events are explained at the later time)
+      setS s'
+      resolveOrFail [] atomics "iteradv"
   | ["all"] => resolveOrFail [(.snapshot "all", expectRes)] atomics "all"
   | ["keys"] => resolveOrFail [(.snapshot "keys", expectRes)] atomics "keys"
   | ["values"] => resolveOrFail [(.snapshot "values", expectRes)] atomics "values"
